@@ -64,6 +64,12 @@ struct Ctx<'a> {
     /// R1.renamedlocal: pinned binding names per fn, fns whose ghost text was renamed
     pinned_locals: HashMap<String, Vec<String>>,
     renamed_fns: Vec<String>,
+    /// names of the impl / trait items removed by R0.dropfn / R0.dropassoc (reported in the evidence)
+    dropped_items: Vec<String>,
+    /// functions for which a hint / loop contract / closure contract was dropped because its anchor disappeared
+    hint_dropped_fns: Vec<String>,
+    /// functions in which a hint was re-attached by similarity (R1.fuzzyanchor)
+    fuzzy_fns: Vec<String>,
     float: bool,
     macro_map: HashMap<String, String>,
     /// R9.method: method-call identifier renames (`x.extend(v)` -> `x.vx_extend(v)`), the target is a prelude stub
@@ -131,6 +137,9 @@ impl<'a> Ctx<'a> {
             pinned_loop_sigs: HashMap::new(),
             pinned_locals: HashMap::new(),
             renamed_fns: vec![],
+            dropped_items: vec![],
+            hint_dropped_fns: vec![],
+            fuzzy_fns: vec![],
             float: false,
             macro_map: HashMap::new(),
             method_map: HashMap::new(),
@@ -1119,6 +1128,7 @@ fn apply_contract(cx: &mut Ctx, f: &FnInfo, contract: Option<&Value>, mutself: b
                     }
                     None => {
                         cx.push(blk0, blk0, "", "R1.droppedloop");
+                        cx.hint_dropped_fns.push(f.key.clone());
                         None
                     }
                 },
@@ -1189,6 +1199,7 @@ fn apply_contract(cx: &mut Ctx, f: &FnInfo, contract: Option<&Value>, mutself: b
                 }
                 if fuzzy_at.is_none() && i.get("droppable").and_then(|v| v.as_bool()).unwrap_or(false) {
                     cx.push(bs, bs, "", "R1.droppedhint");
+                    cx.hint_dropped_fns.push(f.key.clone());
                     continue;
                 }
             }
@@ -1239,6 +1250,7 @@ fn apply_contract(cx: &mut Ctx, f: &FnInfo, contract: Option<&Value>, mutself: b
                 if fuzzy_at.is_none() && i.get("droppable").and_then(|v| v.as_bool()).unwrap_or(false) {
                     // the anchored statement is gone: drop this proof hint (ghost code only) and say so
                     cx.push(bs, bs, "", "R1.droppedhint");
+                    cx.hint_dropped_fns.push(f.key.clone());
                     continue;
                 }
                 if fuzzy_at.is_none() {
@@ -1252,7 +1264,15 @@ fn apply_contract(cx: &mut Ctx, f: &FnInfo, contract: Option<&Value>, mutself: b
             let at = match fuzzy_at {
                 Some(a) => {
                     cx.push(a, a, "", "R1.fuzzyanchor");
-                    a
+                    cx.fuzzy_fns.push(f.key.clone());
+                    // `a` is the start of the matched LINE: step over its indentation, otherwise the innermost
+                    // statement containing the position is the enclosing block's, not the matched statement
+                    let bytes = cx.src.as_bytes();
+                    let mut a2 = a;
+                    while a2 < bytes.len() && (bytes[a2] == b' ' || bytes[a2] == b'\t') {
+                        a2 += 1;
+                    }
+                    a2
                 }
                 None => bs + body.match_indices(anchor).nth(occ.unwrap_or(0) as usize).unwrap().0,
             };
@@ -1404,6 +1424,7 @@ fn apply_closure_specs(cx: &mut Ctx, f: &FnInfo, specs: Option<&Value>, mutself:
                 }
                 None => {
                     cx.push(cx.range(block.span()).0, cx.range(block.span()).0, "", "R1.droppedhint");
+                    cx.hint_dropped_fns.push(f.key.clone());
                     continue;
                 }
             },
@@ -1943,6 +1964,7 @@ fn main() {
                                     // zero-width `pub ` (R0.vis) inserted there must go with it
                                     cx.edits.retain(|e| !(e.rule == "R0.vis" && e.start >= a && e.end <= b));
                                     cx.push(a, b, "", "R0.dropfn");
+                                    cx.dropped_items.push(format!("{}::{}", selkey, n));
                                 } else {
                                     seen.insert(n.clone());
                                     // selector "fn_attrs": {"fn name": "#[verifier::…]"}: verifier-only
@@ -2020,6 +2042,7 @@ fn main() {
                             if !fns.is_empty() && !fns.contains(&n) {
                                 let (a, b) = cx.range(ti.span());
                                 cx.push(a, b, "", "R0.dropfn");
+                                cx.dropped_items.push(format!("{}::{}", t.ident, n));
                             } else {
                                 fninfos.push(FnInfo {
                                     in_trait_impl: false,
@@ -2182,6 +2205,9 @@ fn main() {
                 "anchor_lines": cx.anchor_lines.iter().map(|(k, a, l)| json!([k, a, l])).collect::<Vec<_>>(),
                 "closure_sigs": cx.closure_sigs.iter().map(|(k, v)| json!([k, v])).collect::<Vec<_>>(),
                 "renamed_fns": cx.renamed_fns.clone(),
+                "dropped_items": cx.dropped_items.clone(),
+                "hint_dropped_fns": cx.hint_dropped_fns.clone(),
+                "fuzzy_fns": cx.fuzzy_fns.clone(),
                 "loop_sigs": cx.loop_sigs.iter().map(|(k, v)| json!([k, v])).collect::<Vec<_>>(),
             }));
         }
